@@ -158,7 +158,11 @@ impl Property for C08 {
         ))
     }
     fn gen(&self, t: &mut Tape, tier: Tier) -> Value {
-        let style = style_from(t);
+        let mut style = style_from(t);
+        // read after style_from so that the other properties' styles decode as before
+        if t.chance(1, 3) {
+            style.block_comments = 2 + t.pick(5) as u8;
+        }
         let cfg = GenCfg { max_size: tier.pick(60, 120), hash_only: t.chance(1, 3), ..GenCfg::default() };
         let prog = gen_program(t, cfg);
         let src = print_program(&prog, style, "");
@@ -369,11 +373,14 @@ impl Property for C08 {
         }
         j.evals = 1;
         let nested_blocks = src.lines().filter(|l| l.starts_with("        ")).count() >= 1;
-        if style.comments > 0 || nested_blocks {
+        if style.comments > 0 || style.block_comments > 0 || nested_blocks {
             j.nontrivial.push(fnv(src.as_bytes()));
         }
         if style.explicit_in {
             j.classes.push("style:explicit_in".into());
+        }
+        if style.block_comments > 0 {
+            j.classes.push("style:block_comments".into());
         }
         if style.comments > 0 {
             j.classes.push("style:comments".into());
@@ -393,7 +400,7 @@ impl Property for C08 {
         j
     }
     fn rule(&self) -> String {
-        "(a) operator chains x0 o1 x1 ... on xn enumerated completely over a table of 12 operators, run through parse -> metadata -> reparse_infix and compared with the declarative grouping (lowest precedence level splits the chain; a left level at its last operator, a right level at its first; mixed associativity in one level = error, each such chain must be reported as 'Conflicting fixities'); (b) generated programs printed in a random legal style (explicit in / layout, redundant parentheses, line comments, blank lines, CRLF), parsed by gluon's parser: the canonical rendering of the parsed tree must equal that of the generated tree, and all spans must lie inside the source on character boundaries, inside their parent, ordered among siblings, with identifier/operator/field-name spans covering exactly that name. Non-trivial = chain with >= 2 operators / a conflict; source with comments or a block nested two levels deep. Distinct by source hash".into()
+        "(a) operator chains x0 o1 x1 ... on xn enumerated completely over a table of 12 operators, run through parse -> metadata -> reparse_infix and compared with the declarative grouping (lowest precedence level splits the chain; a left level at its last operator, a right level at its first; mixed associativity in one level = error, each such chain must be reported as 'Conflicting fixities'); (b) generated programs printed in a random legal style (explicit in / layout, redundant parentheses, line comments, block comments with runs of `*` / `/*` / line breaks inside, blank lines, CRLF), parsed by gluon's parser: the canonical rendering of the parsed tree must equal that of the generated tree, and all spans must lie inside the source on character boundaries, inside their parent, ordered among siblings, with identifier/operator/field-name spans covering exactly that name. Non-trivial = chain with >= 2 operators / a conflict; source with comments or a block nested two levels deep. Distinct by source hash".into()
     }
     fn assumptions(&self) -> Vec<String> {
         vec![
